@@ -84,7 +84,23 @@ def R1_range_fields(run):
             run.check("R1", "reset-different-range@" + short, ok, "%s does not reject re-ranging to the identical range (lower == lower && upper == upper)" % path, loc=fn.loc(), detail="same range => SameTickRangeNotAllowed")
             if anchor:
                 zs = [w for w in writes.field_stores(facts) if w["fn"] is fn and w["field"] in ("fee_growth_checkpoint_a", "fee_growth_checkpoint_b", "growth_inside_checkpoint") and w["last"]]
-                ok = {w["field"] for w in zs} == {"fee_growth_checkpoint_a", "fee_growth_checkpoint_b", "growth_inside_checkpoint"} and all(const_val(pv._rvalue(w["rv"], w["block"], w["stmt"], 0)) == 0 for w in zs)
+                have = {w["field"] for w in zs}
+                # the reward checkpoints may be zeroed by a closure handed to `self.reward_infos.iter_mut().for_each(..)`: the closure's
+                # parameter is then the `&mut` element, and its store counts as a store into the position
+                for bi_, t_ in fn.calls():
+                    if (callee_path(t_) or "").rsplit("::", 1)[-1] == "for_each" and len(t_["a"]) == 2 and not fn.blocks[bi_]["c"]:
+                        it_ = pv.operand(t_["a"][0], bi_, len(fn.blocks[bi_]["s"]))
+                        cl_ = strip(pv.operand(t_["a"][1], bi_, len(fn.blocks[bi_]["s"])))
+                        over_own = "IterMut" in (callee_path(t_) or "") and \
+                            mentions(it_, lambda s_: s_[0] == "field" and s_[2] == "reward_infos" and is_param(strip(s_[1]), "self"))
+                        g_ = facts.fn(cl_[1]) if cl_[0] == "closure" else None
+                        if over_own and g_ is not None and not cfg.success_reach(fn, 0, cut_blocks=[bi_]):
+                            pg_ = prov_of(g_)
+                            cw = [w for w in writes.field_stores(facts) if w["fn"] is g_ and w["field"] == "growth_inside_checkpoint" and w["last"]]
+                            if cw and all(const_val(pg_._rvalue(w["rv"], w["block"], w["stmt"], 0)) == 0 and g_.blocks[w["block"]]["s"][w["stmt"]]["p"]["l"] == 2 and
+                                          g_.blocks[w["block"]]["s"][w["stmt"]]["p"]["p"][:1] == ["*"] for w in cw):
+                                have.add("growth_inside_checkpoint")
+                ok = have == {"fee_growth_checkpoint_a", "fee_growth_checkpoint_b", "growth_inside_checkpoint"} and all(const_val(pv._rvalue(w["rv"], w["block"], w["stmt"], 0)) == 0 for w in zs)
                 # ... into the position itself: the stored-to place is rooted at `self`, directly or through a `&mut` taken from it
                 # (`for mut r in self.reward_infos { r.x = 0 }` zeroes a copy of the array)
                 for w in zs:
